@@ -284,3 +284,116 @@ func c12ErrorCodesAgree(p *load.Program, r *core.Report) {
 		r.Bad(rule, key, fname(w), p.Pos(w.Pos()), inst, fmt.Sprintf("byte %d: code(s) %s have no arm in handleRecvQueue: the response is dropped there and the sender of the important message gets a timeout instead of the remote reason", idx, strings.Join(missing, ", ")))
 	}
 }
+
+// c14GiveUpCounter: X11 — the dialing side re-dials a pooled link that was closed; it gives up (and
+// the connection terminates, which tells the consumers of the node) after a few links in a row
+// that the peer closed without sending anything: a peer that has dropped the connection but keeps
+// running still answers the join handshake and closes the socket. The counter of such links is
+// reset only by a link that carried a frame: every assignment of 0 to it after its initialisation
+// is dominated by the "received > 0" edge of the result of the link's serve call. (Reset on a
+// successful re-dial it never reaches the limit: the dead connection is kept for ever.)
+func c14GiveUpCounter(p *load.Program, r *core.Report) {
+	rule := "C14.X11 redial-give-up-counter-reset-only-by-traffic"
+	r.Floor(rule, 1)
+	n := 0
+	for _, f := range funcsOfPkgs(p, "net/proto") {
+		// a serve call whose result is compared with 0
+		var serves []*ssa.Call
+		eachInstr(f, func(in ssa.Instruction) {
+			if c, ok := in.(*ssa.Call); ok && callsNamed(in, "serve") && c.Common().Signature().Results().Len() == 1 {
+				serves = append(serves, c)
+			}
+		})
+		if len(serves) == 0 {
+			continue
+		}
+		for _, sv := range serves {
+			var got, none []Edge
+			if refs := sv.Referrers(); refs != nil {
+				for _, x := range *refs {
+					b, ok := x.(*ssa.BinOp)
+					if !ok {
+						continue
+					}
+					c, okc := constInt(b.Y)
+					if !okc || c != 0 || b.X != ssa.Value(sv) {
+						continue
+					}
+					t, fl, complete := boolEdges(b)
+					if !complete {
+						continue
+					}
+					switch b.Op {
+					case token.GTR, token.NEQ:
+						got, none = append(got, t...), append(none, fl...)
+					case token.EQL, token.LEQ:
+						got, none = append(got, fl...), append(none, t...)
+					}
+				}
+			}
+			if len(none) == 0 {
+				continue
+			}
+			// the counter: a phi that merges `itself + 1` on the nothing-received edge
+			eachInstr(f, func(in ssa.Instruction) {
+				ph, ok := in.(*ssa.Phi)
+				if !ok {
+					return
+				}
+				isCounter := false
+				for _, e := range ph.Edges {
+					if add, ok := e.(*ssa.BinOp); ok && add.Op == token.ADD {
+						if c, okc := constInt(add.Y); okc && c == 1 && edgesDominate(none, add) {
+							isCounter = true
+						}
+					}
+				}
+				if !isCounter {
+					return
+				}
+				n++
+				fn := fname(f)
+				key := fmt.Sprintf("C14.X11|%s|counter#%d", fn, n)
+				inst := "the count of links closed without traffic is reset only by a link that carried a frame"
+				bad := ""
+				// every zero that can flow into the counter after the first serve
+				seen := map[ssa.Value]bool{}
+				var walk func(v ssa.Value, viaBlock *ssa.BasicBlock)
+				walk = func(v ssa.Value, viaBlock *ssa.BasicBlock) {
+					if seen[v] {
+						return
+					}
+					seen[v] = true
+					if x, ok := v.(*ssa.Phi); ok {
+						for i, e := range x.Edges {
+							if c, okc := constInt(e); okc && c == 0 {
+								pred := x.Block().Preds[i]
+								if len(pred.Instrs) == 0 {
+									continue
+								}
+								last := pred.Instrs[len(pred.Instrs)-1]
+								if !instrReachable(sv, last) {
+									continue // the initialisation
+								}
+								if !edgesDominate(got, last) {
+									bad = "a reset to 0 comes from " + p.Pos(last.Pos()) + ", which is not behind the 'received > 0' edge"
+								}
+								continue
+							}
+							walk(e, x.Block())
+						}
+					}
+					if b, ok := v.(*ssa.BinOp); ok {
+						walk(b.X, nil)
+					}
+				}
+				walk(ph, nil)
+				if bad == "" {
+					r.OK(rule, key, fn, p.Pos(ph.Pos()), inst, "every 0 that reaches the counter after the first serve is behind the received>0 edge")
+				} else {
+					r.Bad(rule, key, fn, p.Pos(ph.Pos()), inst, bad+": a peer that dropped the connection but keeps running answers the join handshake and closes the link — the counter never reaches its limit, the dead connection is kept and no consumer of the node is ever told")
+				}
+			})
+		}
+	}
+}
